@@ -52,6 +52,21 @@ def cases(thorough):
         for fail, k in (("call", 0), ("start_response", 0), ("iter", 0)):
             for cl in ("none", "exact"):
                 out.append(rc.base_case(cl=cl, chunks=[3], kind="gen", fail=fail, fail_k=k, version=version, conn=conn))
+    # a file handed over at an offset (a range request): what is announced and sent is what is left of it
+    for (version, conn) in (("1.1", ""), ("1.0", "keep-alive")):
+        for cl in ("none", "exact", "larger"):
+            for chunks in ([5], [3, 2], []):
+                c = rc.base_case(cl=cl, chunks=chunks, kind="file", version=version, conn=conn)
+                c["file_offset"] = 7
+                out.append(c)
+    # a slow reader (16 bytes at a time): a response spread over several out buffers (file wrapper) arrives whole,
+    # also when it is the last one on the connection
+    for (version, conn) in (("1.1", "close"), ("1.0", ""), ("1.1", ""), ("1.0", "keep-alive")):
+        for kind in ("file", "list", "file_noseek"):
+            for cl in ("exact", "none"):
+                c = rc.base_case(cl=cl, chunks=[30, 30], kind=kind, version=version, conn=conn)
+                c["room"], c["take"] = 16, 16
+                out.append(c)
     # the application changes its mind before any output (exc_info re-call): the response is framed by the second
     # call's headers only - a Content-Length declared by the abandoned first call does not count
     for (version, conn) in (("1.1", ""), ("1.0", "keep-alive")):
